@@ -4,6 +4,7 @@ package main
 // Sound for the operations it models; everything else yields the type's range.
 
 import (
+	"fmt"
 	"strings"
 	"go/token"
 	"go/types"
@@ -341,7 +342,17 @@ func (e *IntEnv) structural(v ssa.Value, b *ssa.BasicBlock, depth int) Itv {
 				return out
 			}
 		}
+		// the result of a module-local function: the hull of what it can return (context-insensitive)
+		if iv, ok := resultInterval(x, 0, depth); ok {
+			return iv.meet(tr)
+		}
 		return tr
+	case *ssa.Extract:
+		if c, ok := x.Tuple.(*ssa.Call); ok && isInteger(x.Type()) {
+			if iv, ok := resultInterval(c, x.Index, depth); ok {
+				return iv.meet(tr)
+			}
+		}
 	case *ssa.Phi:
 		var out Itv
 		first := true
@@ -358,6 +369,12 @@ func (e *IntEnv) structural(v ssa.Value, b *ssa.BasicBlock, depth int) Itv {
 				iv = typeRange(ed.Type())
 			} else {
 				iv = e.at(ed, pb, depth+3)
+				// the branch taken into the phi's block also constrains the value on this edge
+				if pb != nil {
+					for _, g := range expandGuards(edgeGuard(pb, x.Block())) {
+						iv = iv.meet(e.fromGuard(g, ed, depth+3))
+					}
+				}
 			}
 			if first {
 				out, first = iv, false
@@ -623,4 +640,45 @@ func sameAllocLoad(a, b ssa.Value) bool {
 	}
 	// either order
 	return !pathHas(la, lb, mayWrite) && instrDominates(la, lb) || !pathHas(lb, la, mayWrite) && instrDominates(lb, la)
+}
+
+var resultIntervalMemo = map[string]*Itv{}
+
+// resultInterval: the hull of the idx-th result over all returns of a module-local callee with a body.
+func resultInterval(c *ssa.Call, idx int, depth int) (Itv, bool) {
+	if c.Call.IsInvoke() || depth > 8 {
+		return Itv{}, false
+	}
+	h := c.Call.StaticCallee()
+	if h == nil || h.Blocks == nil || !strings.HasPrefix(funcPkgPath(h), modPath) {
+		return Itv{}, false
+	}
+	key := fmt.Sprintf("%p/%d", h, idx)
+	if m, ok := resultIntervalMemo[key]; ok {
+		if m == nil {
+			return Itv{}, false // in progress (recursion) or not computable
+		}
+		return *m, true
+	}
+	resultIntervalMemo[key] = nil
+	e2 := &IntEnv{}
+	var hull Itv
+	first := true
+	for _, ret := range returnsOf(h) {
+		res := retResults(ret)
+		if idx >= len(res) || !isInteger(res[idx].Type()) {
+			return Itv{}, false
+		}
+		iv := e2.at(res[idx], ret.Block(), depth+4)
+		if first {
+			hull, first = iv, false
+		} else {
+			hull = hull.join(iv)
+		}
+	}
+	if first {
+		return Itv{}, false
+	}
+	resultIntervalMemo[key] = &hull
+	return hull, true
 }
